@@ -77,6 +77,24 @@ def oracle(inp):
     gp2 = gpgen.make_gp(inp2)
     if numpy.abs(gp2.compute_mean_of_points(xs) - mean).max() > 10 * tol_m or numpy.abs(gp2.compute_variance_of_points(xs) - var).max() > 10 * tol_v:
       return fail("prediction depends on the ordering of the observations", gp2.compute_mean_of_points(xs).tolist(), mean.tolist())
+  # one big batch of query points (>= 1e5 point pairs in one call: code paths may switch with the size of the batch): mean and variance of
+  # a seeded sample of its rows against the reference posterior of those rows
+  if inp.get("big_batch"):
+    rs = numpy.random.RandomState(inp["big_batch"]["seed"])
+    dimx = xs.shape[1]
+    big = rs.uniform(-0.2, 1.2, size=(inp["big_batch"]["n"], dimx)) * (xs.max(axis=0) - xs.min(axis=0) + 1.0) + xs.min(axis=0)
+    mb, vb = gp.compute_mean_of_points(big), gp.compute_variance_of_points(big)
+    pick = rs.choice(len(big), size=60, replace=False)
+    sub = dict(inp, xs=big[pick].tolist())
+    rmb, rvb, _, condb = gpgen.reference_posterior(sub)
+    exb, dkb = gpgen.reference_posterior.extra, gpgen.kernel_entry_error(sub)
+    tmb = (1e-14 * condb * (alpha * exb["a_l1"] + float(numpy.abs(rmb).max()) + scale) + 4 * dkb * exb["a_l1"] + 1e-9 * scale
+           + 1e-14 * exb["gls_cond"] * (1 + condb * 1e-6) * exb["pb_l1"])
+    tvb = 1e-14 * condb * alpha * (1 + exb["card_l1"]) ** 2 + 8 * dkb * exb["card_l1"] + 1e-9 * alpha
+    if numpy.abs(mb[pick] - rmb).max() > tmb:
+      return fail("posterior mean in a big batch differs from the closed form", mb[pick].tolist()[:5], rmb.tolist()[:5])
+    if numpy.abs(vb[pick] - numpy.maximum(rvb, 1e-100)).max() > tvb:
+      return fail("posterior variance in a big batch differs from the closed form", vb[pick].tolist()[:5], rvb.tolist()[:5])
   # sum of GPs
   w = inp.get("weights")
   if w:
@@ -126,6 +144,8 @@ def oracle(inp):
 def gen_input(rng):
   inp = gpgen.gen_gp_input(rng)
   n = len(inp["points"])
+  if rng.random() < 0.02:
+    inp["big_batch"] = dict(seed=rng.randrange(10 ** 6), n=-(-100000 // n) + rng.randint(1, 500))   # n_query * n_observed >= 1e5
   if rng.random() < 0.5:
     perm = list(range(n))
     rng.shuffle(perm)
